@@ -33,12 +33,12 @@ FamQ1 == QuantLevel(D1B)
 
 \* ---------- depth 2, core leaves ----------
 \* quick: 3 Boolean / 3 numeric core leaves, inner implies/iff only over fluents, no inner division;
-\* thorough: 4 / 5 core leaves (with the static fluents sp(o1), s), every operator at both levels.
+\* thorough: 4 / 4 core leaves (with the static fluents sp(o1), s), every operator at both levels.
 Quick == Tier = "quick"
 CoreBQuick == {B1f, B2f, TRUEc}
 CoreNQuick == {Nf, Num(1, 1), Num(0 - 1, 1)}
 CoreBThorough == {B1f, B2f, TRUEc, Fl1("sp", O1)}
-CoreNThorough == {Nf, Sf, Num(0, 1), Num(1, 1), Num(0 - 1, 1)}
+CoreNThorough == {Nf, Sf, Num(1, 1), Num(0 - 1, 1)}
 CB1 == CoreB \cup {Op1("not", a) : a \in CoreB}
        \cup {Op2(o, a, b) : o \in {"and", "or"}, a \in CoreB, b \in CoreB}
        \cup {Op2(o, a, b) : o \in {"implies", "iff"}, a \in (IF Quick THEN CoreB \ {TRUEc} ELSE CoreB),
